@@ -75,5 +75,7 @@ func handlePanic() {
 		fmt.Println("Recovered from panic:")
 		fmt.Println(r)
 		debug.PrintStack()
+		// nothing (or not everything) was generated: do not report success
+		os.Exit(2)
 	}
 }
